@@ -32,7 +32,7 @@ func pkgFiles(p *packages.Package) []string {
 // configuration-specific files, with the objects they may touch (the declared BLS set).
 var allowedBLSRefs = map[string][]string{
 	"init":      {"initBLS12381", "blsInstance", "blsBLS12381Algo"}, // sign.go: builds the BLS context next to the ECDSA ones
-	"newSigner": {"blsInstance"},                                   // sign.go: algorithm → instance switch
+	"newSigner": {"blsInstance"},                                    // sign.go: algorithm → instance switch
 }
 
 func ruleC20(w *World) {
